@@ -510,6 +510,9 @@ func genProgression(o ProgOpts, k0 string) *rapid.Generator[[]PItem] {
 				p.Vals = []Frac{{rapid.IntRange(1, 6).Draw(t, "sv"), rapid.SampledFrom([]int{1, 1, 2, 4}).Draw(t, "sd")}}
 			} else {
 				p.Vals = genValues(3).Draw(t, "vals")
+				if !p.Rest {
+					p.Vals = audible(p.Vals)
+				}
 			}
 			p.BPM = opt(t, "bpm", o.Settings, genBPM)
 			p.Vel = opt(t, "vel", o.Settings, rapid.SampledFrom(theory.Dynamics))
@@ -525,4 +528,17 @@ func genProgression(o ProgOpts, k0 string) *rapid.Generator[[]PItem] {
 		}
 		return ps
 	})
+}
+
+// audible makes a chord last at least one tick (the timing oracles tell
+// chords apart by their onset): by construction, not by rejection.
+func audible(vs []Frac) []Frac {
+	if lo, _ := ticksOf(vs, 960); lo >= 1 {
+		return vs
+	}
+	vs = append(append([]Frac{}, vs...), Frac{1, vs[0].D})
+	if lo, _ := ticksOf(vs, 960); lo >= 1 {
+		return vs
+	}
+	return []Frac{{1, 7}}
 }
